@@ -369,12 +369,19 @@ def box_part(e):
         e = e[1]
     if e[0] == "field" and e[3] == RCBOX and e[2] in BOX_FIELDS and e[1][0] == "deref":
         return e[1][1], e[2]
-    if e[0] == "field" and e[2] in ("strong", "weak") and e[3].startswith("cactusref::"):
-        x = e[1]
+    # the counters may sit deeper: in a header struct of the crate (`(*b).header.strong`) and / or behind a newtype of
+    # the crate around the cell (`(*b).strong.0`): the counter is named by the strong / weak field on the way down
+    if e[0] == "field" and e[3].startswith("cactusref::"):
+        names = []
+        x = e
         n = 0
-        while x[0] == "field" and x[3].startswith("cactusref::") and n < 3:
+        while x[0] == "field" and x[3].startswith("cactusref::") and n < 4:
+            names.append(x[2])
             if x[3] == RCBOX and x[1][0] == "deref":
-                return x[1][1], e[2]
+                hit = [nm for nm in names if nm in ("strong", "weak")]
+                if len(hit) == 1 and len(names) > 1:
+                    return x[1][1], hit[0]
+                return None
             x = x[1]
             n += 1
     return None
